@@ -43,7 +43,7 @@ def run(ctx):
             ok, why = False, "returns %s" % show(v)[:80]
             break
         d = dict(v[2])
-        if not payload_is_isolated(p, d[C("signed")], obj):
+        if not payload_is_isolated(p, d[C("signed")], obj, eng):
             ok, why = False, "payload is %s, not a deep copy of the argument" % show(d[C("signed")])[:80]
             break
         if not (is_lit(d[C("signatures")], "dict") and not d[C("signatures")][2]):
